@@ -282,26 +282,34 @@ def random_history(rng, b, cls, nkeys, length):
     return evs
 
 
-def judge_traces(rep, work, traces, label):
-    path = work.path('traces-%s.json' % label)
-    with open(path, 'w') as f:
-        json.dump(traces, f)
-    r = run_tlc(work, 'Trace_SDict.tla', 'Trace_SDict.cfg', workers=8, env={'TRACE_FILE': path})
-    rep.tlc('trace-' + label, r)
-    if r.invariant_violated:
-        rep.violation({'engine': 'sdict-trace', 'invariant': r.invariant_violated},
-                      {'tlc_tail': r.out[-2000:]})
+def judge_traces(rep, work, traces, label, per=25):
+    """validated in shards of `per` traces (one TLC run each, run side by side): a trace file with thousands of
+    observation records per history does not fit one JVM heap"""
+    from concurrent.futures import ThreadPoolExecutor
+    shards = [list(range(i, min(i + per, len(traces)))) for i in range(0, len(traces), per)]
+
+    def one(k):
+        path = work.path('traces-%s-%d.json' % (label, k))
+        with open(path, 'w') as f:
+            json.dump([traces[i] for i in shards[k]], f)
+        return k, run_tlc(work, 'Trace_SDict.tla', 'Trace_SDict.cfg', workers=4, env={'TRACE_FILE': path}, xmx='3g')
     verdict, done = {}, set()
-    for ln in r.out.split('\n'):
-        ln = ln.strip()
-        if ln.startswith('<<"ACCEPT"') or ln.startswith('<<"DONE"'):
-            done.add(int(ln.split(',')[1].strip(' >')))
-        elif ln.startswith('<<"REJECT"'):
-            parts = [p.strip(' <>"') for p in ln.split(',')]
-            verdict.setdefault(int(parts[1]), []).append((int(parts[2]), parts[3]))
+    with ThreadPoolExecutor(max_workers=4) as ex:
+        for k, r in ex.map(one, range(len(shards))):
+            rep.tlc('trace-' + label, r)
+            if r.invariant_violated:
+                rep.violation({'engine': 'sdict-trace', 'invariant': r.invariant_violated},
+                              {'tlc_tail': r.out[-2000:]})
+            for ln in r.out.split('\n'):
+                ln = ln.strip()
+                if ln.startswith('<<"ACCEPT"') or ln.startswith('<<"DONE"'):
+                    done.add(shards[k][int(ln.split(',')[1].strip(' >')) - 1] + 1)
+                elif ln.startswith('<<"REJECT"'):
+                    parts = [p.strip(' <>"') for p in ln.split(',')]
+                    verdict.setdefault(shards[k][int(parts[1]) - 1] + 1, []).append((int(parts[2]), parts[3]))
     for i in range(1, len(traces) + 1):
         if i not in done:
-            raise MachineryError('no verdict for trace %d (%s)\n%s' % (i, label, r.out[-1500:]))
+            raise MachineryError('no verdict for trace %d (%s)' % (i, label))
         verdict.setdefault(i, []).sort()
     return verdict
 
